@@ -381,6 +381,15 @@ func (cachefile *cacheFile) Reset() error {
 	return nil
 }
 
+// Remove empties the cache and deletes its file. Whoever still holds the cache can go on using it,
+// a cache that is opened for the same path later gets a file of its own.
+func (cachefile *cacheFile) Remove() error {
+	if err := cachefile.Reset(); err != nil {
+		return err
+	}
+	return os.Remove(cachefile.cachePath)
+}
+
 func (cachefile *cacheFile) Contains(streamID uint64) bool {
 	cachefile.rwmutex.RLock()
 	defer cachefile.rwmutex.RUnlock()
